@@ -1322,7 +1322,13 @@ Definition b_put_rdataset (c : cfg) (v : bver) (n : name) (r : rds) : res bver :
       if deleg_has (bv_deleg v1) k then (v1, fl)
       else (b_update_glue (mkBver (bv_nodes v1) (deleg_add (bv_deleg v1) k) (bv_changed v1)) k true, fl)
     else (v1, bn_flags nd) in
-  Ok (mkBver (bmap_set (bv_nodes v2) k (mkBn fl (node_replace (bn_rds nd) r))) (bv_deleg v2) (bv_changed v2)).
+  let rds' := node_replace (bn_rds nd) r in
+  (* replace_rdataset may have evicted the NS rdataset (a CNAME replaces all other data): the node
+     then stops being a delegation point, as in delete_rdataset *)
+  if negb (Z.land fl fDELEGATION =? 0) && (match node_find rds' cIN tNS 0 with None => true | Some _ => false end) then
+    Ok (b_update_glue (mkBver (bmap_set (bv_nodes v2) k (mkBn (Z.ldiff fl fDELEGATION) rds'))
+                              (deleg_discard (bv_deleg v2) k) (bv_changed v2)) k false)
+  else Ok (mkBver (bmap_set (bv_nodes v2) k (mkBn fl rds')) (bv_deleg v2) (bv_changed v2)).
 
 Definition b_delete_rdataset (c : cfg) (v : bver) (n : name) (ty cov : Z) : res bver :=
   do x <- b_maybe_cow c v n;
